@@ -69,8 +69,10 @@ package measurement
 // with the requested unit (dropped for the pseudo units count/sample/unit/minimum/auto).
 //@ spec macro func anyfamily(unit string) bool = exists t int :: 0 <= t && t < len(UnitTypes) && known(UnitTypes[t], normunit(unit))
 //@ func Scale arith bv floatabs=yes
+//@   callsite Scale onceneg: value < 0 && $arg0 > 0 && $arg0 == -value && $arg1 == fromUnit && $arg2 == toUnit
 //@   requires forall t int :: 0 <= t && t < len(UnitTypes) ==> factorsok(UnitTypes[t])
 //@   ensures unknown_value: !(value < 0 && -value > 0) && !anyfamily(fromUnit) ==> same(result0, float64(value))
+//@   ensures unknown_neg: value < 0 && -value > 0 && !anyfamily(fromUnit) ==> same(result0, -float64(-value))
 //@   ensures unknown_unit: !(value < 0 && -value > 0) && !anyfamily(fromUnit) ==>
 //@       result1 == ite(toUnit == "count" || toUnit == "sample" || toUnit == "unit" || toUnit == "minimum" || toUnit == "auto", "", toUnit)
 //@   loop 1
@@ -81,3 +83,29 @@ package measurement
 // that no function other than the initialiser writes the table is the static obligation "global-frame").
 //@ func init arith bv floatabs=yes nosafety
 //@   ensures unitsok: forall t int :: 0 <= t && t < len(UnitTypes) ==> factorsok(UnitTypes[t])
+
+// ---- C15 (strengthened after seeded changes): compatibility means the same unit family; Scale negates at most once ----
+// compatibleValueTypes: same type name up to a trailing s, and equal units or units known to one common family.
+//@ func compatibleValueTypes arith bv
+//@   ensures nilok: (v1 == nil || v2 == nil) ==> result
+//@   ensures typemismatch: v1 != nil && v2 != nil && trimsuffix(v1.Type, "s") != trimsuffix(v2.Type, "s") ==> !result
+//@   ensures sameunit: v1 != nil && v2 != nil && trimsuffix(v1.Type, "s") == trimsuffix(v2.Type, "s") && v1.Unit == v2.Unit ==> result
+//@   ensures family: v1 != nil && v2 != nil && trimsuffix(v1.Type, "s") == trimsuffix(v2.Type, "s") && v1.Unit != v2.Unit ==>
+//@       (result <==> exists t int :: 0 <= t && t < len(UnitTypes) && known(UnitTypes[t], normunit(v1.Unit)) && known(UnitTypes[t], normunit(v2.Unit)))
+//@   loop 1
+//@     invariant 0 <= $i && $i <= len(UnitTypes)
+//@     invariant forall t int :: 0 <= t && t < $i ==> !(known(UnitTypes[t], normunit(v1.Unit)) && known(UnitTypes[t], normunit(v2.Unit)))
+
+// CommonValueType: every candidate is compared (compatibility and scale ratio) against the running finest
+// type, and the result is a fresh copy of one of the inputs.
+//@ func CommonValueType arith bv floatabs=yes
+//@   requires forall i int :: 0 <= i && i < len(ts) ==> ts[i] != nil
+//@   uses measurement.unitsok
+//@   callsite Scale running_min: $arg0 == 1 && $arg2 == minType.Unit
+//@   callsite compatibleValueTypes running_min: $arg0 == minType
+//@   ensures trivial: len(ts) <= 1 ==> result0 == nil && result1 == nil
+//@   ensures member: result1 == nil && len(ts) > 1 ==> fresh(result0) && exists i int :: 0 <= i && i < len(ts) && result0.Unit == ts[i].Unit && result0.Type == ts[i].Type
+//@   loop 1
+//@     invariant 0 <= $i && $i <= len(ts) - 1 && minType != nil
+//@     invariant exists i int :: 0 <= i && i < len(ts) && minType == ts[i]
+//@     invariant forall i int :: 0 <= i && i < len(ts) ==> ts[i] != nil
